@@ -180,7 +180,7 @@ def run(tier, seed):
     rep.stubs = ["decoder.started_at is set to now-5s / now-11min by the harness"]
     nproc = 16
     jobs = [(configs[k::nproc], histories) for k in range(nproc)]
-    parts = run_jobs(rep, _worker, jobs, timeout_s=800)
+    parts = run_jobs(rep, _worker, jobs, timeout_s=800 if tier == "quick" else 4800)
     st = sum(p["states"] for p in parts if p and "states" in p)
     tr = sum(p["trans"] for p in parts if p and "trans" in p)
     rep.count("configurations", len(configs))
